@@ -5,7 +5,7 @@
     are Model/Pred.v (tied to the Go code by the correspondence run).
     [FR x] is the real number the float64 [x] denotes; [detR a b c] the exact determinant. *)
 From Coq Require Import ZArith Reals Floats Bool.
-From Geo Require Import Base.GoPrim Base.F64 Base.Exact Gen.R3 Gen.S2Pred Model.Pred Proofs.C02_Exact.
+From Geo Require Import Base.GoPrim Base.F64 Base.Exact Gen.R3 Gen.S2Pred Model.Pred Proofs.C02_Exact Proofs.C02_Float.
 Local Open Scope R_scope.
 
 (** exact stage ------------------------------------------------------------------------- *)
@@ -68,3 +68,84 @@ Print Assumptions exact_compare_distance_is_exact.
 Theorem exact_sign_dot_prod_is_exact : forall a b, exact_sign_dot_prod a b = sgnR (dotR a b).
 Proof. exact exact_sign_dot_prod_spec. Qed.
 Print Assumptions exact_sign_dot_prod_is_exact.
+
+(** float stages under named hypotheses --------------------------------------------------
+    H_TRIAGE_DET / H_STABLE_DET / H_TRIAGE_COS / H_TRIAGE_SIN2 / H_TRIAGE_COS1 / H_TRIAGE_SIN21 /
+    H_TRIAGE_DOT are Prop-valued definitions in Proofs/C02_Float.v about float64 arithmetic
+    (error of the float determinant / dot product, soundness of the float comparisons);
+    they appear as premises. [unit_pt p]: finite coordinates and | |p|^2 - 1 | <= 2^-44. *)
+Theorem triage_constant_is_large_enough :
+  ffinite maxDetErr = true /\ ffinite maxDetErrNeg = true /\
+  D2R K_TRIAGE <= FR maxDetErr /\ FR maxDetErrNeg = - FR maxDetErr.
+Proof. exact triage_const_ok. Qed.
+Print Assumptions triage_constant_is_large_enough.
+
+Theorem stable_multiplier_is_large_enough : ffinite detErrMul = true /\ D2R K_STABLE <= FR detErrMul.
+Proof. exact stable_const_ok. Qed.
+Print Assumptions stable_multiplier_is_large_enough.
+
+Theorem dot_constant_is_large_enough : ffinite dotMaxErr = true /\ D2R K_DOT <= FR dotMaxErr.
+Proof. exact dot_const_ok. Qed.
+Print Assumptions dot_constant_is_large_enough.
+
+Theorem triage_sign_never_wrong : H_TRIAGE_DET -> forall a b c, unit_pt a -> unit_pt b -> unit_pt c ->
+  s2_triageSign a b c <> 0%Z -> s2_triageSign a b c = sgnR (detR a b c).
+Proof. exact triage_sound. Qed.
+Print Assumptions triage_sign_never_wrong.
+
+Theorem stable_sign_never_wrong : H_STABLE_DET -> forall a b c, unit_pt a -> unit_pt b -> unit_pt c ->
+  s2_stableSign a b c <> 0%Z -> s2_stableSign a b c = sgnR (detR a b c).
+Proof. exact stable_sound. Qed.
+Print Assumptions stable_sign_never_wrong.
+
+Theorem robust_sign_is_exact_sign : H_TRIAGE_DET -> H_STABLE_DET -> forall a b c,
+  unit_pt a -> unit_pt b -> unit_pt c ->
+  robust_sign a b c = if identical2 a b c then 0%Z else exact_sign a b c.
+Proof. exact robust_sign_spec. Qed.
+Print Assumptions robust_sign_is_exact_sign.
+
+Theorem robust_sign_is_sign_of_nonzero_determinant : H_TRIAGE_DET -> H_STABLE_DET -> forall a b c,
+  unit_pt a -> unit_pt b -> unit_pt c -> detR a b c <> 0 -> robust_sign a b c = sgnR (detR a b c).
+Proof. exact robust_sign_det. Qed.
+Print Assumptions robust_sign_is_sign_of_nonzero_determinant.
+
+Theorem robust_sign_zero_iff_two_identical : H_TRIAGE_DET -> H_STABLE_DET -> forall a b c,
+  unit_pt a -> unit_pt b -> unit_pt c -> (robust_sign a b c = 0%Z <-> identical2 a b c = true).
+Proof. exact robust_sign_zero_iff. Qed.
+Print Assumptions robust_sign_zero_iff_two_identical.
+
+Theorem robust_sign_rotation : H_TRIAGE_DET -> H_STABLE_DET -> forall a b c,
+  unit_pt a -> unit_pt b -> unit_pt c -> robust_sign b c a = robust_sign a b c.
+Proof. exact robust_sign_rotate. Qed.
+Print Assumptions robust_sign_rotation.
+
+Theorem robust_sign_swap_negates : H_TRIAGE_DET -> H_STABLE_DET -> forall a b c,
+  unit_pt a -> unit_pt b -> unit_pt c -> robust_sign c b a = (- robust_sign a b c)%Z.
+Proof. exact robust_sign_swap. Qed.
+Print Assumptions robust_sign_swap_negates.
+
+Theorem compare_distances_is_exact_comparison : H_TRIAGE_COS -> H_TRIAGE_SIN2 -> forall x a b,
+  unit_pt x -> unit_pt a -> unit_pt b -> cmp_distances_R x a b <> 0%Z ->
+  compare_distances x a b = cmp_distances_R x a b.
+Proof. exact compare_distances_exact. Qed.
+Print Assumptions compare_distances_is_exact_comparison.
+
+Theorem compare_distances_antisymmetric : H_TRIAGE_COS -> H_TRIAGE_SIN2 -> forall x a b,
+  unit_pt x -> unit_pt a -> unit_pt b -> compare_distances x b a = (- compare_distances x a b)%Z.
+Proof. exact compare_distances_antisym. Qed.
+Print Assumptions compare_distances_antisymmetric.
+
+Theorem compare_distances_zero_iff_same_point : H_TRIAGE_COS -> H_TRIAGE_SIN2 -> forall x a b,
+  unit_pt x -> unit_pt a -> unit_pt b -> (compare_distances x a b = 0%Z <-> s2_Point_eqb a b = true).
+Proof. exact compare_distances_zero_iff. Qed.
+Print Assumptions compare_distances_zero_iff_same_point.
+
+Theorem compare_distance_is_exact_comparison : H_TRIAGE_COS1 -> H_TRIAGE_SIN21 -> forall x y r,
+  unit_pt x -> unit_pt y -> valid_limit r -> compare_distance x y r = cmp_distance_R x y r.
+Proof. exact compare_distance_spec. Qed.
+Print Assumptions compare_distance_is_exact_comparison.
+
+Theorem sign_dot_prod_is_exact : H_TRIAGE_DOT -> forall a b, finite a -> finite b ->
+  norm2R a <= 2 -> norm2R b <= 2 -> sign_dot_prod a b = sgnR (dotR a b).
+Proof. exact sign_dot_prod_spec. Qed.
+Print Assumptions sign_dot_prod_is_exact.
